@@ -43,7 +43,7 @@ package off
 //@ func (*Writer).CreateFile
 //@   props C05
 //@   ensures once: old(w.file) != nil ==> result != nil && unchanged(w.file, w.writer)
-//@   ensures created: result == nil ==> w.file != nil && w.writer != nil && fresh(w.writer) && w.writer.n == 0 && w.writer.items == 0 && WInv(w.writer)
+//@   ensures created: result == nil ==> w.file != nil && w.writer != nil && fresh(w.writer) && allocated(w.writer) && w.writer.n == 0 && w.writer.items == 0 && WInv(w.writer)
 //@   ensures works: !IOFaults() && old(w.file) == nil ==> result == nil
 //@   modifies w.file, w.writer
 
@@ -76,5 +76,6 @@ package off
 //@   ensures kept: forall i int :: {w.writer.acc[i]} i < old(w.writer.n) ==> w.writer.acc[i] == old(w.writer.acc[i])
 //@   ensures once: old(w.headerWritten) ==> result != nil && w.writer.items == old(w.writer.items)
 //@   ensures four: result == nil ==> w.headerWritten && w.writer.items == old(w.writer.items) + 4
+//@   ensures roomy: !QueueFull() && !old(w.headerWritten) ==> result == nil
 //@   modifies w.headerWritten, w.writer.n, w.writer.acc, w.writer.items, w.writer.mark
 //@   assume matrices: forall a int :: {stable(a)} stable(a) ## the projector and basis matrices queued by reference are never mutated in place; json.MarshalIndent returns a fresh buffer
